@@ -3,27 +3,9 @@ C19 — wire code points map to the right enumeration values.
 The quantifier is the finite table of 256 byte values, enumerated completely in the kernel.
 -/
 import Mctp.Model.Enums
+import Mctp.Spec.Layout
 namespace Mctp
 namespace C19
-
-/-- DSP0236 table 12 (command codes) as a literal list -/
-def cmdTable : List (B × Cmd) :=
-  [(0x00#8, .reserved), (0x01#8, .setEndpointID), (0x02#8, .getEndpointID), (0x03#8, .getEndpointUUID),
-   (0x04#8, .getMCTPVersionSupport), (0x05#8, .getMessageTypeSupport),
-   (0x06#8, .getVendorDefinedMessageSupport), (0x07#8, .resolveEndpointID), (0x08#8, .allocateEndpointIDs),
-   (0x09#8, .routingInformationUpdate), (0x0A#8, .getRoutingTableEntries),
-   (0x0B#8, .prepareForEndpointDiscovery), (0x0C#8, .endpointDiscovery), (0x0D#8, .discoveryNotify),
-   (0x0E#8, .getNetworkID), (0x0F#8, .queryHop), (0x10#8, .resolveUUID), (0x11#8, .queryRateLimit),
-   (0x12#8, .requestTXRateLimit), (0x13#8, .updateRateLimit), (0x14#8, .querySupportedInterfaces)]
-
-/-- DSP0239 message type codes the library supports -/
-def msgTable : List (B × MsgType) :=
-  [(0x00#8, .control), (0x05#8, .spdm), (0x06#8, .secured), (0x7E#8, .pci), (0x7F#8, .iana)]
-
-/-- DSP0236 table 13 (completion codes) -/
-def ccTable : List (B × CC) :=
-  [(0x00#8, .success), (0x01#8, .error), (0x02#8, .errorInvalidData), (0x03#8, .errorInvalidLength),
-   (0x04#8, .errorNotReady), (0x05#8, .errorUnsupportedCmd)]
 
 theorem cmd_table : ∀ b : B, Cmd.ofByte b = ((cmdTable.lookup b).getD .unknown) := by
   apply forall_byte; decide +kernel
